@@ -182,7 +182,7 @@ NOT_YET = {}
 # external_body stubs that are only the CALLERS' view of a function whose real body is proved in another unit (against the same
 # contract text): listed in the evidence as such, not as assumptions
 PROVED_IN = {
-    'split': 'split', 'search_dictionary': 'fixed_search', 'get_words_for': 'data', 'find_suffix': 'data', 'get_emoji_by_emoticon': 'data', 'get_emoji_by_name': 'data', 'get_emoji_by_bengali': 'data',
+    'split': 'split', 'search_dictionary': 'fixed_search', 'get_words_for': 'data', 'find_suffix': 'data', 'get_emoji_by_emoticon': 'data', 'get_emoji_by_name': 'data', 'get_emoji_by_bengali': 'data', 'get_user_phonetic_selection_data': 'data (path = user_dir.join("phonetic-candidate-selection.json"))', 'get_user_phonetic_autocorrect': 'data (path = user_dir.join("autocorrect.json"))',
     'search_corrected': 'data (the ASCII clause is a data precondition, validated by tools/data_pre.py)',
     'process_key_value': 'fixed_pkv_off / fixed_pkv_on / fixed_pkv_common', 'insert_old_style_reph': 'fixed_reph',
     'get_char_for_key': 'layout', 'layout_get_value': 'layout_get', 'layout_get_value_numpad': 'layout_get',
